@@ -67,6 +67,7 @@ type Op struct {
 	Text    string   `json:"text,omitempty"`  // build operations
 	Names   []string `json:"names,omitempty"` // removals (nil and empty both render as absent)
 	NilList bool     `json:"nil_list,omitempty"`
+	Again   bool     `json:"again,omitempty"` // the text of an earlier build operation, pushed once more
 	Fail    string   `json:"fail,omitempty"`  // failing texts: syntax-* | duplicate-name | blank
 	Rules   []Rule   `json:"rules,omitempty"` // the rules of the text (failing texts: what must NOT get installed)
 	Rel     []string `json:"rel,omitempty"`   // per rule of a valid build: new | equal | changed
